@@ -128,9 +128,9 @@ def without_virtual(ctx, res, j, xs, rejected, errs, text):
     seen = {}
 
     def written(q):
-        for a in [q.amt, q.cost[1] if q.cost else None, q.lot]:
-            if a is not None and a.sym is not None:
-                yield a.sym, a.dec
+        a = q.amt            # a cost or a lot price teaches its commodity nothing
+        if a is not None and a.sym is not None:
+            yield a.sym, a.dec
     for x in xs:
         for q in x.posts:
             if q.kind != 'V':
